@@ -2,6 +2,8 @@ package main
 
 import (
 	"fmt"
+	"sort"
+	"strings"
 	"go/constant"
 	"go/token"
 	"go/types"
@@ -307,6 +309,74 @@ func ordOwn(w *World, r *EngineResult) {
 	}
 	r.Stats["round_loop_analysis_calls"] = nC
 	r.floor("round_loop_analysis_calls", 2)
+
+	// (d) the preloaded files and the target are analysed back to back: between the call
+	// that analyses the preloaded files and the call that analyses the target, in one round,
+	// nothing else changes the analysis tables (package-level maps and variables of base and
+	// eval). Whatever runs in between — a sweep that deletes placeholder entries, a reset —
+	// sees the declarations of the preloaded files and not those of the target, so the pair
+	// no longer behaves like the concatenation of the files.
+	eff := w.Effects()
+	nD := 0
+	for _, fn := range w.Funcs {
+		if pkgShort(fn) != "main" {
+			continue
+		}
+		var calls []*ssa.Call
+		for _, b := range fn.Blocks {
+			for _, ins := range b.Instrs {
+				if c, ok := ins.(*ssa.Call); ok {
+					if cal := c.Call.StaticCallee(); cal != nil && analyses[cal] && cal != fn {
+						calls = append(calls, c)
+					}
+				}
+			}
+		}
+		for _, c1 := range calls {
+			for _, c2 := range calls {
+				if c1 == c2 || c1.Call.StaticCallee() == c2.Call.StaticCallee() || c2.Call.StaticCallee() != loop {
+					continue // from the wrapper (preloaded files) to the loop itself (target)
+				}
+				between, ok := instrsBetween(c1, c2)
+				if !ok {
+					continue
+				}
+				nD++
+				construct := "between " + c1.Call.StaticCallee().Name() + " and " + c2.Call.StaticCallee().Name()
+				bad := ""
+				for _, ins := range between {
+					x, ok := ins.(*ssa.Call)
+					if !ok {
+						continue
+					}
+					cal := x.Call.StaticCallee()
+					if cal == nil || cal.Pkg == nil || !inModule(cal.Pkg.Pkg.Path()) {
+						continue
+					}
+					e := eff.Of(cal)
+					var touched []string
+					for _, m := range []map[string]bool{e.mapDeletes, e.mapUpdates, e.globalStores} {
+						for k := range m {
+							if strings.HasPrefix(k, "base.") || strings.HasPrefix(k, "eval.") {
+								touched = append(touched, k)
+							}
+						}
+					}
+					if len(touched) > 0 {
+						sort.Strings(touched)
+						bad = fmt.Sprintf("%s at %s changes %s", fnKey(cal), w.pos(instrPos(x)), strings.Join(dedupe(touched), ","))
+					}
+				}
+				if bad == "" {
+					r.holds("ORD-own", fnKey(fn), construct, "the target is analysed directly after the preloaded files: nothing in between touches the analysis tables", w.pos(instrPos(c2)))
+				} else {
+					r.violated("ORD-own", fnKey(fn), construct, "the analysis tables are changed between the preloaded files and the target ("+bad+"): what runs there sees the declarations of the preloaded files but not yet those of the target, so preloading P and analysing M differs from analysing P followed by M", w.pos(instrPos(c2)))
+				}
+			}
+		}
+	}
+	r.Stats["preload_to_target_spans"] = nD
+	r.floor("preload_to_target_spans", 1)
 	_ = fmt.Sprint
 }
 
@@ -327,4 +397,79 @@ func rootObject(v ssa.Value) ssa.Value {
 		}
 	}
 	return v
+}
+
+
+// instrsBetween: the instructions that can run after a and before b when a's block
+// dominates b's (ok=false otherwise).
+func instrsBetween(a, b ssa.Instruction) ([]ssa.Instruction, bool) {
+	ab, bb := a.Block(), b.Block()
+	var out []ssa.Instruction
+	if ab == bb {
+		seenA := false
+		for _, ins := range ab.Instrs {
+			if ins == b {
+				return out, seenA
+			}
+			if seenA {
+				out = append(out, ins)
+			}
+			if ins == a {
+				seenA = true
+			}
+		}
+		return nil, false
+	}
+	if !ab.Dominates(bb) {
+		return nil, false
+	}
+	fwd := map[*ssa.BasicBlock]bool{}
+	var f func(x *ssa.BasicBlock)
+	f = func(x *ssa.BasicBlock) {
+		if fwd[x] || x == bb {
+			return
+		}
+		fwd[x] = true
+		for _, s := range x.Succs {
+			f(s)
+		}
+	}
+	for _, s := range ab.Succs {
+		f(s)
+	}
+	bwd := map[*ssa.BasicBlock]bool{}
+	var g func(x *ssa.BasicBlock)
+	g = func(x *ssa.BasicBlock) {
+		if bwd[x] || x == ab {
+			return
+		}
+		bwd[x] = true
+		for _, p := range x.Preds {
+			g(p)
+		}
+	}
+	for _, p := range bb.Preds {
+		g(p)
+	}
+	seenA := false
+	for _, ins := range ab.Instrs {
+		if seenA {
+			out = append(out, ins)
+		}
+		if ins == a {
+			seenA = true
+		}
+	}
+	for x := range fwd {
+		if bwd[x] {
+			out = append(out, x.Instrs...)
+		}
+	}
+	for _, ins := range bb.Instrs {
+		if ins == b {
+			break
+		}
+		out = append(out, ins)
+	}
+	return out, true
 }
